@@ -79,6 +79,12 @@ def mapSet {κ ν : Type} (m : GoMap κ ν) (k : κ) (v : ν) : GM (GoMap κ ν)
   | none => .panic "nilmap"
   | some l => .ok (some ((k, v) :: l))
 
+/-- `thrift.PrependError(prefix, err)`: the exception kind and type id are kept (property C18), the text — which is not
+    modelled — changes; any other error stays what it is -/
+def prependErr : GoErr → GoErr
+  | .pe id _ => .pe id ""
+  | e => e
+
 /-! ## slices (cap = len) -/
 
 def len (b : Bytes) : Int := (b.length : Int)
